@@ -376,6 +376,12 @@ def plain_value(v):
 
 
 def write_json(path, cols, rows, null_style='null'):
+    recs = json_records(cols, rows, null_style)
+    with open(path, 'w', encoding='utf-8') as f:
+        json.dump(recs, f, ensure_ascii=False)
+
+
+def json_records(cols, rows, null_style='null'):
     recs = []
     for r in rows:
         d = {}
@@ -387,8 +393,7 @@ def write_json(path, cols, rows, null_style='null'):
                 tgt = tgt.setdefault(q, {})
             tgt[parts[-1]] = plain_value(v)
         recs.append(d)
-    with open(path, 'w', encoding='utf-8') as f:
-        json.dump(recs, f, ensure_ascii=False)
+    return recs
 
 
 def write_xml(path, cols, rows, null_style='absent'):
@@ -521,6 +526,7 @@ def materialise_files(case, wd, style=None, name='m'):
     paths = {}
     sqlite_tables = {}
     file_paths = {}
+    shared_json = {}
     for i, s in enumerate(case['sources']):
         kind = s.get('kind', 'csv')
         if kind in ('csv', 'tsv'):
@@ -532,6 +538,12 @@ def materialise_files(case, wd, style=None, name='m'):
             fn = '%s_%d.csv' % (name, i)
             write_csv(os.path.join(wd, fn), s['cols'], s['rows'], ';')
             paths[s['key']] = fn
+        elif kind == 'json' and s.get('shared_file'):
+            # several sources are parts of ONE JSON document {"part": [records], ...} (file named by the case, e.g. *.geojson), each read through its own iterator
+            fn = s['shared_file']
+            shared_json.setdefault(fn, {})[s['part']] = json_records(s['cols'], s['rows'], s.get('null_style', 'null'))
+            paths[s['key']] = fn
+            s['iterator'] = '$.%s[*]' % s['part']
         elif kind == 'json':
             fn = '%s_%d.json' % (name, i)
             write_json(os.path.join(wd, fn), s['cols'], s['rows'], s.get('null_style', 'null'))
@@ -562,6 +574,9 @@ def materialise_files(case, wd, style=None, name='m'):
             sqlite_tables.setdefault(s.get('db'), {})[s['table']] = (s['cols'], s['rows'], s.get('types'))
     for tag, tabs in sqlite_tables.items():
         write_sqlite(os.path.join(wd, _db_file(name, tag)), tabs)
+    for fn, parts in shared_json.items():
+        with open(os.path.join(wd, fn), 'w', encoding='utf-8') as f:
+            json.dump(parts, f, ensure_ascii=False)
     if case.get('file_path_option'):
         # the file is named by the file_path option of the section instead of the mapping (one file source only)
         key = case['file_path_option']
